@@ -377,6 +377,16 @@ func c09Jobs(tier string) []*Job {
 			jobs = append(jobs, &Job{Kind: "c09cuts", Scenario: sc, BudgetS: per, Args: args})
 		}
 	}
+	// restart of a node while another validator is silent: exactly M live validators, so the restarted one is needed
+	// and has to get its own earlier payloads back through recovery
+	for r := 0; r < 4; r++ {
+		for _, sl := range []int{(r + 1) % 4, (r + 2) % 4} {
+			sc := c09Scen(fmt.Sprintf("C09-restart%d-silent%d-N4", r, sl), 4, withHeights(1), withK(0), withKind(r, kAmnesia), withKind(sl, kSilent), withHorizon(40))
+			sc.Dev.Restart = false
+			sc.RestartNode = r
+			jobs = append(jobs, &Job{Kind: "c09cuts", Scenario: sc, BudgetS: per, Args: map[string]int{"restart": 1, "stride": 1}})
+		}
+	}
 	// larger N: one representative cut set per size
 	for _, n := range []int{7, 10} {
 		for _, size := range []int{1, n / 2, n - 1} {
